@@ -493,7 +493,7 @@ func c20Run(w *explore.Worker, c c20Case) (steps int) {
 	return steps
 }
 
-var c20Alphabet = []string{"board:1", "board:2", "newsgrp:C2", "newspost:C1:second", "newspost:C1:" + strings.Repeat("long", 200), "newsdelart:C1", "newsdelitem:C1",
+var c20Alphabet = []string{"board:1", "board:2", "newsgrp:C2", "newspost:C1:second", "newspost:C1:" + strings.Repeat("long", 200), "newspost:C1:\ttab\nlf", "newsgrp:<<", "newsdelart:C1", "newsdelitem:C1",
 	"acctnew:b", "acctmod:a", "acctren:a:c", "acctdel:a", "acctmod:b", "ban:10.0.0.1:temp", "ban:10.0.0.1:perm", "ban:10.0.0.2:perm"}
 
 func c20Histories(depth int) [][]string {
